@@ -190,7 +190,23 @@ def rule_executemany(ctx):
     ctx.floor("C08.e paths", n, 1)
 
 
+def rule_reembedded_text(ctx):
+    """C08.f = C09.e: a value that fakesnow itself re-embeds into a statement of its own (the table comment — which may have
+    been a bound parameter) sits in a single-quoted literal with its quotes doubled, the one embedding that is safe for every
+    value."""
+    from .c09 import rule_quote
+
+    before = len(ctx.obligations)
+    rule_quote(ctx)
+    for o in ctx.obligations[before:]:
+        o["rule"] = "C08.f"
+    for f in ctx.findings:
+        if f.rule == "C09.e":
+            f.rule = "C08.f"
+
+
 RULES = [
+    ("C08.f", rule_reembedded_text, ("quick", "thorough")),
     ("C08.a", rule_client_side, ("quick", "thorough")),
     ("C08.d", rule_server_side, ("quick", "thorough")),
     ("C08.e", rule_executemany, ("quick", "thorough")),
